@@ -182,12 +182,18 @@ func ValidateCounterpartyID(id string, protocol ProtocolID) error {
 	return nil
 }
 
-// isInteger returns true if the string can be converted to
-// an integer, false otherwise.
+// isInteger returns true if the string is the canonical decimal
+// representation of an unsigned 32-bit integer (the domain type used
+// by CCTP and Hyperlane), false otherwise. Signs, leading zeros and
+// out-of-range values are rejected so that an accepted identifier is
+// exactly the string transfers to that domain are matched against.
 func isInteger(s string) bool {
-	_, err := strconv.Atoi(s)
+	v, err := strconv.ParseUint(s, 10, 32)
+	if err != nil {
+		return false
+	}
 
-	return err == nil
+	return strconv.FormatUint(v, 10) == s
 }
 
 // ID generates an internal identifier for a tuple (bridge protocol, chain).
